@@ -14,7 +14,7 @@ CHECKS = {
        "checksum over the prefix written so far) is model-checked to refine Wire!Layout (1.3 M states; AppendOnlyExceptPatch, PrimsDiscipline) and shown sensitive "
        "(switch MeasureFromPlaceholder); in the thorough tier Apalache additionally discharges an inductive invariant of the same discipline over unbounded byte counts (LenPatchInd.tla) and tlapm re-checks its TLAPS proof (proofs/LenPatchProof.tla); programs with a length-of field of every unsigned width, match and object targets, all payload alternatives incl. empty and > 255 bytes, caller-supplied garbage; TLC validates the length field's bytes in every enc event and the decoded value. USED-BUFFER histories: WireMachine.tla is also checked started on a buffer that already holds bytes, part of them consumed (PreUntouched, OnlyChecksumsSeePre; deviation PosFromReadable refuted), and every encoder is run into such buffers (encinto events: pre of 3 bytes, and 5 bytes of which 2 are consumed): TLC validates that the earlier bytes stay, the length field is the target's byte count wherever the message starts, and the placeholder is patched in place.", 'note': "Trusted: the reference codec runtimes and drivers in /verif/runtimes (written for this project; DESIGN 4.4), the target toolchains; values are drawn from the domain MCWire derives. Cells whose emitted code does not build are invisible here and reported under C07. The harness's own reference encoder is not trusted (TLC checks ref = Layout on every message).", 'technique': 'TLC model checking of Wire.tla (MCWire) + TLC-generated programs (DslGen) compiled and run in 5 languages + TLC trace validation (TraceCodec)'},
     "C05": {'level': 'model_checking', 'design': '6 (C05)', 'text': 'MCWire invariants Dispatch / UnknownKeyFails; match tables of 5 forms x 7 key kinds; every key in the table is encoded and decoded (dynamic type of the payload observed), two keys outside the table are decoded (deckey events must report an error).', 'note': "Trusted: the reference codec runtimes and drivers in /verif/runtimes (written for this project; DESIGN 4.4), the target toolchains; values are drawn from the domain MCWire derives. Cells whose emitted code does not build are invisible here and reported under C07. The harness's own reference encoder is not trusted (TLC checks ref = Layout on every message).", 'technique': 'TLC model checking of Wire.tla (MCWire) + TLC-generated programs (DslGen) compiled and run in 5 languages + TLC trace validation (TraceCodec)'},
-    "C06": {'level': 'model_checking', 'design': '6 (C06)', 'text': 'MCWire invariant Cksum; checksum fields of 4 widths, registered (VSUM<w>) and unregistered algorithm, followed or last; TLC validates the checksum bytes in enc events and that every recorded calc call covered exactly the bytes preceding a checksum field. USED-BUFFER histories (WireMachine.tla on a buffer that already holds bytes): every encoder is also run into a buffer holding 3 earlier bytes and one holding 5 of which 2 are consumed; TLC validates that a registered checksum covers every byte that precedes it IN THE BUFFER (both readings of 'consumed bytes' are accepted, they are the buffer's business), an unregistered one stays the caller's.', 'note': "Trusted: the reference codec runtimes and drivers in /verif/runtimes (written for this project; DESIGN 4.4), the target toolchains; values are drawn from the domain MCWire derives. Cells whose emitted code does not build are invisible here and reported under C07. The harness's own reference encoder is not trusted (TLC checks ref = Layout on every message).", 'technique': 'TLC model checking of Wire.tla (MCWire) + TLC-generated programs (DslGen) compiled and run in 5 languages + TLC trace validation (TraceCodec)'},
+    "C06": {'level': 'model_checking', 'design': '6 (C06)', 'text': 'MCWire invariant Cksum; checksum fields of 4 widths, registered (VSUM<w>) and unregistered algorithm, followed or last; TLC validates the checksum bytes in enc events and that every recorded calc call covered exactly the bytes preceding a checksum field. USED-BUFFER histories (WireMachine.tla on a buffer that already holds bytes): every encoder is also run into a buffer holding 3 earlier bytes and one holding 5 of which 2 are consumed; TLC validates that a registered checksum covers every byte that precedes it IN THE BUFFER (both readings of consumed bytes are accepted, they are the business of the buffer), an unregistered one stays the value of the caller.', 'note': "Trusted: the reference codec runtimes and drivers in /verif/runtimes (written for this project; DESIGN 4.4), the target toolchains; values are drawn from the domain MCWire derives. Cells whose emitted code does not build are invisible here and reported under C07. The harness's own reference encoder is not trusted (TLC checks ref = Layout on every message).", 'technique': 'TLC model checking of Wire.tla (MCWire) + TLC-generated programs (DslGen) compiled and run in 5 languages + TLC trace validation (TraceCodec)'},
     "C07": {'level': 'exploration', 'design': '6 (C07), 3.8', 'text': "Pipeline.tla's lifecycle (Validate -> RunGen -> WriteFiles -> Build) gives the requirement; TLC-generated programs (every DslGen cell x options) plus name-shape / omitted-package cells are compiled for all six targets; whether the emitted files are valid programs is decided by the target toolchains (go, rustc, javac, g++, python ast, the harness Lua parser); marker texts and member inventories are observed; the recorded lifecycle is validated by TLC against TraceLifecycle.tla.", 'note': 'The deciding observer is the target toolchain, so the level is exploration; reference runtimes define the API; the known findings at this commit are listed by root cause in DESIGN 0.5.', 'technique': 'TLC-generated programs + target toolchains as oracles + TLC validation of the recorded lifecycle (TraceLifecycle)'},
     "C15": {'level': 'model_checking', 'design': '6 (C15), 4.5', 'text': "Wire!Segments gives every leaf field's byte range (SegmentsTile checked by MCWire); the emitted Lua dissector is interpreted (own Lua-subset interpreter with lexical name resolution + Wireshark stubs) over the canonical encoding of every sweep message of every DslGen program; TLC validates every recorded tree:add against Segments (field, offset, length), the end offset and the absence of Lua errors (TraceDissect).", 'note': 'Trusted: harness/lua_interp.py and lua_wireshark.py (345 unit checks), lenient about TreeItem:le_add / ProtoField.int; every run is cross-checked against the real Lua 5.3 library when it is installed (a disagreement is exit 2). DissectMachine.tla (operational dissector: offset threaded through sub-dissectors that return it) is model-checked (AttributesSegments, EndsAtMessageEnd, RangesInside, OffsetMonotone) and shown sensitive (DropOffsetAfterObject, DropOffsetAfterMatch, OneByteSubtree).', 'technique': 'TLC model checking of Wire.tla and DissectMachine.tla + interpretation of the emitted dissector + TLC trace validation (TraceDissect)'},
     "C17": {'level': 'exploration', 'design': '6 (C17), 3.8', 'text': 'The self-tests fin-protoc emits for Go (real testify), Rust (rustc --test), Java (JUnit stand-in), Python (unittest), C++ (gtest stand-in) are built and run for every DslGen program; the recorded SelfTest lifecycle (builds, one test per declared packet, all pass) is validated by TLC against TraceLifecycle.tla; the outcome of a cell says how many of the emitted tests fail, so another failing test in a cell that already fails is a new finding.', 'note': 'JUnit and gtest are stand-ins with the same assertion semantics; toolchains decide validity (exploration).', 'technique': 'TLC-generated programs + running the emitted tests + TLC validation of the recorded lifecycle'},
